@@ -464,9 +464,11 @@ class Sampler:
         Stores all current parameters used with the sampler in a list and
         returns this.
         """
-        # Store circuit unitary and input state
+        # Store circuit unitary and input state, the number of modes is also
+        # included as loss modes mean this cannot be found from the unitary
         vals = [
             self.__circuit.U_full,
+            self.__circuit.n_modes,
             self.__circuit.heralds,
             self.input_state,
             self.backend.backend,
